@@ -96,26 +96,10 @@ EncodeCases ==
     { [neg |-> s, mag |-> [i \in 1..k |-> f] \o top] :
           s \in BOOLEAN, k \in Lens, f \in Fills, top \in {t \in Tops : t[Len(t)] # 0} }
 
-\* Implementation layer (not the protocol): what btcd's BigToCompact is seen to
-\* return.  It shifts the signed number right arithmetically, which rounds a
-\* negative number away from zero, so for a negative input with non-zero bytes
-\* below the mantissa window the mantissa is one too large -- and when that
-\* carries to 2^24 the carry is OR-ed into the exponent byte and the mantissa
-\* is zero.  Recorded here so that the binder can tell this known deviation
-\* (known-findings.json) from any other wrong answer on the same inputs.
-BigToCompactAsCoded(x) ==
-    LET n       == Len(x.mag)
-        dropped == n > 3 /\ \E i \in 1..(n - 3) : x.mag[i] # 0
-    IN  IF ~(x.neg /\ dropped) THEN BigToCompact(x)
-        ELSE LET m0 == ToInt(SubSeq(x.mag, n - 2, n)) + 1
-             IN  IF m0 = 2 * TwoP23 THEN << IF n % 2 = 0 THEN n + 1 ELSE n, 1, 0 >>
-                 ELSE IF m0 >= TwoP23 THEN <<n + 1, 1, m0 \div 256>>
-                 ELSE <<n, 1, m0>>
-
 EncodeExpect(x) ==
     LET y == [neg |-> x.neg /\ Len(x.mag) > 0, mag |-> x.mag]
         b == BigToCompact(y)
-    IN  [ bits |-> b, back |-> CompactToBig(b), coded |-> BigToCompactAsCoded(y) ]
+    IN  [ bits |-> b, back |-> CompactToBig(b) ]
 
 EncodeLaws ==
     case.kind = "encode" =>
@@ -295,6 +279,21 @@ InteriorCases(n) ==
           r \in {0, 1, 12} \cup (IF Thorough THEN {2007} ELSE {300}),
           d \in {1, 600, 1200, 1201} }
 
+\* across a boundary: the last three blocks of a period with bits B, then the
+\* first block of the next period carrying the limit as its retarget result,
+\* then r more blocks at the limit; candidate d seconds after the tip.  The
+\* walk-back must stop at the period's first block (limit), not run on into
+\* the previous period (B).
+CrossScen(n, B, r, d) ==
+    [ net |-> n.name, h0 |-> 201600 - 3, t0 |-> T0,
+      runs |-> << [n |-> 3, dt |-> 600, bits |-> B], [n |-> 1, dt |-> 600, bits |-> n.limitBits] >> \o
+               (IF r = 0 THEN << >> ELSE << [n |-> r, dt |-> 1201, bits |-> n.limitBits] >>),
+      newT |-> T0 + 3 * 600 + r * 1201 + d ]
+CrossCases(n) ==
+    { CrossScen(n, B, r, d) :
+          B \in Lower(n) \cup (IF n.limitBits = RMainBits THEN {<<28, 0, 8388480>>} ELSE {}),
+          r \in {0, 1, 12} \cup (IF Thorough THEN {2014} ELSE {}), d \in {600, 1200, 1201} }
+
 RealExpect(s) ==
     LET n   == RealNetOf(s.net)
         c   == ScenChain(s)
@@ -359,6 +358,7 @@ Groups ==
     \cup {[of |-> "boundary", net |-> n.name, h0 |-> h0] : n \in RetargetNets, h0 \in RealBases}
     \cup {[of |-> "interior", net |-> n.name] : n \in RealNets}
     \cup {[of |-> "easiest", net |-> n.name] : n \in EasyNets}
+    \cup {[of |-> "cross", net |-> n.name] : n \in {x \in RetargetNets : x.reduce}}
 
 Init == case = [kind |-> "root"] /\ expect = None
 
@@ -394,6 +394,9 @@ Pick ==
                 case' = [kind |-> "real", s |-> s] /\ expect' = RealExpect(s)
        \/ /\ g.of = "interior"
           /\ \E s \in InteriorCases(RealNetOf(g.net)) :
+                case' = [kind |-> "real", s |-> s] /\ expect' = RealExpect(s)
+       \/ /\ g.of = "cross"
+          /\ \E s \in CrossCases(RealNetOf(g.net)) :
                 case' = [kind |-> "real", s |-> s] /\ expect' = RealExpect(s)
        \/ /\ g.of = "easiest"
           /\ \E x \in {y \in EasiestCases : y.net.name = g.net} :
